@@ -21,6 +21,7 @@ func checkC19(c *Check, a *Anchors) {
 	c19SplitVar(c, a)
 	c19InitPath(c, a)
 	c19NotTemplated(c, a)
+	renderedOutputVerbatim(c, a)
 }
 
 func c19NotTemplated(c *Check, a *Anchors) {
